@@ -25,7 +25,7 @@ ASSUMPTIONS = [
 ]
 
 NAMES = ["x", "x_", "x__", "a_b", "a-b", "class_", "data_x_"]
-VALUES = ["v", "w q", "", None, False, True, 3, 2.5, ["H", "h"]]
+VALUES = ["v", "w q", "", None, False, True, 3, 2.5, ["H", "h"], 0, 0.0]
 RNAMES = ["x", "x_", "a_b"]
 RVALUES = ["v", None, True, ["H", "h"]]
 
@@ -172,7 +172,7 @@ INITS = [
     ["new", [[["x", None], ["x_", "kept"]]], []],
     ["new", [], [["class_", "k"], ["x", 2.5]]],
 ]
-LIVE_VALUES = ["v", "w q", "", True, 3, 2.5, ["H", "h"]]
+LIVE_VALUES = ["v", "w q", "", True, 3, 2.5, ["H", "h"], 0]
 
 
 def mk_ops(names, values):
@@ -187,6 +187,11 @@ def mk_ops(names, values):
     ops.append(["update-2dicts", [["class_", "p"]], [["class", "q"]]])
     ops.append(["update-dict+kw", [["a_b", "p"]], [["a_b", 7]]])
     ops.append(["update-dict", [["x", "one"], ["x_", "two"]]])
+    # a dropped (None/False) value followed by a real one for the same name in ONE call:
+    # whichever way "dropped" is read, the later value replaces what the tag held
+    ops.append(["update-2dicts", [["class_", None]], [["class", "n1"]]])
+    ops.append(["update-dict+kw", [["x", False]], [["x_", "n2"]]])
+    ops.append(["update-2dicts", [["x", None]], [["x_", ["H", "n3"]]]])
     ops.append(["update-empty"])
     return ops
 
